@@ -79,7 +79,7 @@ SettingCalls(s) ==
   \cup {[op |-> "SetDelimiter", form |-> "rune", v |-> ";"], [op |-> "SetDelimiter", form |-> "nil", v |-> ""],
         [op |-> "SetDelimiter", form |-> "int", v |-> ""]}
   \cup {[op |-> "SetSymbol", parts |-> p, dep |-> d] : d \in BOOLEAN,
-          p \in {<<>>, <<[form |-> "str", v |-> "&"]>>, <<[form |-> "str", v |-> "|"], [form |-> "rune", v |-> "|"]>>,
+          p \in {<<>>, <<[form |-> "str", v |-> "&"]>>, <<[form |-> "str", v |-> "Xo"]>>,      \* a symbol with cased letters: never folded <<[form |-> "str", v |-> "|"], [form |-> "rune", v |-> "|"]>>,
                  <<[form |-> "int", v |-> ""], [form |-> "str", v |-> "&"]>>}}
   \cup {[op |-> "SetEncap", pairs |-> p, dep |-> d] : d \in BOOLEAN,
           p \in {<<>>, <<<<"\"">>>>, <<<<"<", ">">>>>, <<<<"<", ">">>, <<"\"">>>>, <<<<"\"", ">">>>>,
